@@ -283,6 +283,58 @@ def run(ctx):
             if info["result"] == "done" and info["written"] != info["size"]:
                 ctx.violation("a read completed successfully having written %d of %d bytes" % (info["written"], info["size"]),
                               case, "read-done-wrong-length")
+    # ---- composed system: real reads (Segmentation) on a real DownloadNode, deliveries explicit
+    ycases, yimpl, ylines = [], [], []
+
+    def sys_line(p, toks):
+        return "sys %d %d %s %d %d %d %s" % (p[0], p[1], ",".join(map(str, p[2])) or "-", p[3], p[4], p[5], " ".join(toks))
+    if ctx.replay:
+        c = ctx.replay.get("case") or ((ctx.replay.get("correspondence_disagreements") or [{}])[0].get("case")) or {}
+        if c.get("kind") == "sys":
+            p = tuple(c["params"][:2]) + (c["params"][2],) + tuple(c["params"][3:])
+            digs, info = fc.replay_sys_script(p, c["toks"])
+            ycases.append(c)
+            yimpl.append(";".join(digs))
+            ylines.append(sys_line(p, c["toks"]))
+    else:
+        SYS_CORPUS = [
+            # two concurrent reads, guess 5 vs real 16: BadSegmentNumber retry and WrongSegment retry (Props/C46 exSys)
+            ((1, 2, [], 32, 16, 5), ["R:0:20:8", "R:1:3:20", "l:0", "a:0.0.0.0", "l:0", "u", "l:0", "d:0", "l:1", "s:1:0:C",
+                                     "l:1", "d:1", "l:2", "s:2:0:C", "l:2", "d:2", "d:3", "l:3", "s:3:0:C", "l:3", "d:4"]),
+            # duplicate requests for one segment whose fetch fails, then another read (seeded C46-d at read level)
+            ((2, 1, [], 16, 16, 16), ["R:0:0:16", "R:1:0:10", "l:0", "a:0.0.0.1", "l:0", "n", "l:0", "d:0", "d:1",
+                                      "R:2:4:4", "l:1", "n", "l:1", "d:2"]),
+            # decode failure, stop of a waiting read, pause / resume
+            ((1, 2, [0], 32, 16, 16), ["R:0:0:32", "R:1:16:8", "l:0", "a:0.0.0.1", "l:0", "u", "s:0:0:C", "l:0", "P:1", "d:0",
+                                       "d:1", "U:1", "T:1", "l:1", "s:1:0:C", "l:1", "X:1"]),
+        ]
+        for (p, toks) in SYS_CORPUS:
+            digs, info = fc.replay_sys_script(p, toks)
+            case = {"kind": "sys", "params": [p[0], p[1], list(p[2]), p[3], p[4], p[5]], "toks": toks}
+            ycases.append(case)
+            yimpl.append(";".join(digs))
+            ylines.append(sys_line(p, toks))
+            ctx.case(("Y", repr(p), tuple(toks)))
+        for i in range(B(250, 8000)):
+            p, toks, digs, info = fc.gen_sys_script(ctx.rng)
+            case = {"kind": "sys", "params": [p[0], p[1], list(p[2]), p[3], p[4], p[5]], "toks": toks}
+            ycases.append(case)
+            yimpl.append(";".join(digs))
+            ylines.append(sys_line(p, toks))
+            ctx.case(("Y", repr(p), tuple(toks)) if len(toks) > 4 else None)
+            for rid, r in info["reads"].items():
+                ctx.count("sys-read:" + str(r["result"]))
+                if info["quiescent"] and r["result"] is None and r["hungry"] and len(toks) < 220:
+                    ctx.violation("composed system quiescent but read %d neither completed nor failed (unhandled: %s)"
+                                  % (rid, info["unhandled"]), case, "read-stuck-composed-system",
+                                  detail={"unhandled": info["unhandled"]})
+                if r["result"] == "done" and info["written"][rid] != info["sizes"][rid]:
+                    ctx.violation("read %d completed having written %d of %d bytes" % (rid, info["written"][rid], info["sizes"][rid]),
+                                  case, "read-done-wrong-length")
+    ymodel = ctx.model(ylines) if ylines else None
+    if ymodel is not None:
+        ctx.compare("composed system script (real DownloadNode.read / Segmentation / SegmentFetcher, fake shares): calls, "
+                    "queue, active fetcher, retirements and every read's state after every event", ycases, yimpl, ymodel)
     smodel = ctx.model(slines) if slines else None
     if smodel is not None:
         ctx.compare("Segmentation script: calls (get_segment / write / cancel / callback / errback), _offset, _size, _alive, "
